@@ -158,8 +158,6 @@ Proof. vm_compute. split; reflexivity. Qed.
     into gen/Gen_ScanOpts.v on every run —, the default delimiter or any [delim_ok] custom delimiter
     that does not start with '-', any list of extra directive lines. *)
 
-Lemma semi_eq : semi = delimiter. Proof. reflexivity. Qed.
-
 Theorem C07_driver_opts_no_go : forallb (fun o => negb (GoCommand o)) gen_scan_opts = true.
 Proof. vm_compute. reflexivity. Qed.
 Print Assumptions C07_driver_opts_no_go.
@@ -189,10 +187,6 @@ Proof.
 Qed.
 Print Assumptions C07_roundtrip_atlas_drivers.
 
-Definition ex_plan (d : bytes) : plan :=
-  mkPlan (bs "20240101000000"%string) (bs "n"%string) d [bs "-- atlas:txmode none"%string]
-    [mkChange (bs "CREATE TABLE `t;` (`c` int COMMENT ""x\""; -- y"")"%string) (bs "create ""t;"" table"%string) [bs "DROP TABLE `t;`"%string];
-     mkChange (bs "ALTER TABLE `t;` ADD COLUMN `d` varchar(9) DEFAULT 'a''b;'"%string) [] []].
 Example C07_roundtrip_atlas_nonvacuous :
   forallb (fun c => scan_closed opts_mysql semi (c_cmd c) && comment_ok (c_comment c)) (p_changes (ex_plan [])) = true
   /\ delim_ok [10;10]%N = true
@@ -223,8 +217,6 @@ Proof.
     exact (liquibase_roundtrip o now p Hgo Hnow Hne Hall).
 Qed.
 Print Assumptions C07_roundtrip_tools_except.
-Definition ex_tool_plan : plan :=
-  mkPlan [] [] [] [] [mkChange (bs "CREATE TABLE ""t;"" (c text DEFAULT 'a''b;')"%string) (bs "create t"%string) [bs "DROP TABLE t"%string]].
 Example C07_roundtrip_tools_nonvacuous :
   forallb (fun c => scan_closed opts_generic semi (c_cmd c) && comment_ok2 (c_comment c)
                     && forallb comment_ok (c_reverse c)) (p_changes ex_tool_plan) = true
@@ -304,9 +296,6 @@ Proof. repeat split; vm_compute; reflexivity. Qed.
     preserves its statement sequence.  It is FALSE: the import keeps the source reader's FILE order
     only if the atlas directory's lexical order of the new names agrees with it — Flyway orders
     versions numerically (V2 before V10), the imported 10_b.sql sorts before 2_a.sql. *)
-Definition w_import_files : list (bytes * bytes) :=
-  [(bs "V2__a.sql"%string, bs ("CREATE TABLE ta (a int);" ++ nl)%string);
-   (bs "V10__b.sql"%string, bs ("CREATE TABLE tb (a int);" ++ nl)%string)].
 Theorem C07_import_order_refuted :
   exists files out,
     import_dir FFlyway [] files = Some out
